@@ -148,6 +148,11 @@ func (e *Explorer) execute(prefix []int, sigs map[uint64]struct{}) (res *ExecRes
 			}
 		})
 	}()
+	if res.Leak && os.Getenv("VERIF_DEBUG_STACKS") != "" {
+		buf := make([]byte, 1<<20)
+		n := runtime.Stack(buf, true)
+		os.Stderr.Write(buf[:n])
+	}
 	if res.Leak && e.Scn.OnLeak != nil && res.Outcome != nil {
 		e.Scn.OnLeak(res.Outcome)
 	}
